@@ -111,6 +111,10 @@ var embedded = []string{
 	"set session transaction isolation level read committed",
 	"set global transaction read only",
 	"set autocommit = on",
+	"select A. /0", "select a/b, t./x from x/y", "select a / b from /tmp/x.csv",
+	"select @@ .A", "select @@a.b, @@x .t.c from @@x .t", "select * from `@@a``b` .c as d",
+	"set transaction read only, isolation level serializable", "set names = 0", "set names = abc, charset = 'x'", "set transaction = 1, names = default",
+	"set transaction = 'read only'", "set transaction = 'read only', x = 1", "set global transaction = only",
 	"begin", "start transaction", "commit", "rollback",
 	"use db", "use `d b`",
 	"show databases", "show tables", "show full tables from db like 'x%'", "show create table t", "show columns from t", "show index from t",
